@@ -8,9 +8,9 @@
 //	<out>/racetable.json  the same content with names, the protocol the Go-side mirror of the check found for every
 //	                      location, the offending accesses of rejected ones, entry lock sets, roots, statistics
 //
-// With -selftest <dir> it additionally applies three seeded discipline violations (one at a time, as go/packages
-// overlays; the mutated copies are written under <dir>) and writes <dir>/SelfTables.v with the three tables;
-// ./check proves in Coq that check_table rejects each of them.
+// With -selftest <dir> it additionally applies the seeded discipline violations of selftest.go (one at a time, as
+// go/packages overlays; the mutated copies are written under <dir>) and writes <dir>/SelfTables.v with their tables
+// (seed1 .. seedN) and <dir>/selftest.json; ./check proves in Coq that check_table rejects each of them.
 //
 // Exit status: 0 table written (whether or not it passes), 2 loading / internal error.
 package main
